@@ -6,6 +6,7 @@ import (
 	"errors"
 	"fmt"
 	"io"
+	"reflect"
 	"runtime"
 	"strings"
 	"sync/atomic"
@@ -406,6 +407,16 @@ func c15Execute(sc *C15Scenario, c *core.Ctx, concurrent bool) (*c15exec, sched.
 				fail("typed read delivered %d of %d rows", typed, tdata.Len())
 				return
 			}
+			// the schema of the same Go type derived with and without a struct tag
+			// replacement, while the other tasks use the process-wide schema cache:
+			// the option-specific schema renames its column, the plain one does not
+			if tdata.Len() > 0 && ex.errs[ti] == "" {
+				yield("api", "schemaof")
+				if msg := schemaTagCheck(tdata.Value(0), len(k.Batches)%2 == 0); msg != "" {
+					fail("%s", msg)
+					return
+				}
+			}
 			bytesPart := shortHash(sink.buf)
 			if tsh.HasMap() {
 				bytesPart = "map" // map iteration order is excepted
@@ -506,6 +517,11 @@ func c15Execute(sc *C15Scenario, c *core.Ctx, concurrent bool) (*c15exec, sched.
 				parquet.Release(p)
 			}
 			pages.Close()
+			if (k.RG+k.Col)%2 == 0 {
+				// closing twice is allowed; what the page reader borrowed from the
+				// process-wide pools goes back once
+				pages.Close()
+			}
 			ex.results[ti] = fmt.Sprintf("rg=%d col=%d values=%d %x", g, k.Col, total, h.Sum(nil)[:8])
 		case "index":
 			rgs := sharedFile.RowGroups()
@@ -736,6 +752,10 @@ func (C15) Run(s any, c *core.Ctx) core.Outcome {
 			return out
 		}
 	}
+	if v := c15DoublePut(sc, "serial"); v != nil {
+		out.Violation = v
+		return out
+	}
 	conc, res, v := c15Execute(sc, c, true)
 	sc.Sched = res.Decisions
 	c.Inter = res.Inter
@@ -754,6 +774,10 @@ func (C15) Run(s any, c *core.Ctx) core.Outcome {
 	}
 	if res.Deadlock != "" {
 		out.Violation = core.Violate("C15/deadlock/"+sc.Workload, "%s (after %d decisions)", res.Deadlock, res.Steps)
+		return out
+	}
+	if v := c15DoublePut(sc, "concurrent"); v != nil {
+		out.Violation = v
 		return out
 	}
 	if res.CutShort {
@@ -782,4 +806,82 @@ func (C15) Run(s any, c *core.Ctx) core.Outcome {
 		}
 	}
 	return out
+}
+
+// schemaTagCheck derives the schema of v's type with a struct tag replacement
+// that renames its first column, and without: the first must carry the new
+// name, the second must not (the process-wide schema cache is keyed by Go type
+// and must only ever hold and serve plain schemas).
+func schemaTagCheck(v any, taggedFirst bool) string {
+	t := reflect.TypeOf(v)
+	for t.Kind() == reflect.Pointer {
+		t = t.Elem()
+	}
+	if t.Kind() != reflect.Struct {
+		return ""
+	}
+	const renamed = "zz_renamed_by_option"
+	for i := 0; i < t.NumField(); i++ {
+		f := t.Field(i)
+		if f.Anonymous || !f.IsExported() {
+			continue
+		}
+		old, has := f.Tag.Lookup("parquet")
+		name, rest, _ := strings.Cut(old, ",")
+		if name == "-" {
+			continue
+		}
+		if name == "" {
+			name = f.Name
+		}
+		repl := renamed
+		if rest != "" {
+			repl += "," + rest
+		}
+		tag := string(f.Tag)
+		if has {
+			tag = strings.Replace(tag, `parquet:"`+old+`"`, `parquet:"`+repl+`"`, 1)
+		} else {
+			tag = strings.TrimSpace(tag + ` parquet:"` + repl + `"`)
+		}
+		opt := parquet.StructTag(reflect.StructTag(tag), f.Name)
+		var tagged, plain *parquet.Schema
+		if taggedFirst {
+			tagged = parquet.SchemaOf(v, opt)
+			plain = parquet.SchemaOf(v)
+		} else {
+			plain = parquet.SchemaOf(v)
+			tagged = parquet.SchemaOf(v, opt)
+		}
+		hasField := func(s *parquet.Schema, n string) bool {
+			for _, sf := range s.Fields() {
+				if sf.Name() == n {
+					return true
+				}
+			}
+			return false
+		}
+		switch {
+		case !hasField(tagged, renamed):
+			return fmt.Sprintf("SchemaOf(%s, StructTag(%q, %q)) has no column %q: %s", t, tag, f.Name, renamed, tagged)
+		case hasField(tagged, name):
+			return fmt.Sprintf("SchemaOf(%s, StructTag(%q, %q)) still has column %q: %s", t, tag, f.Name, name, tagged)
+		case hasField(plain, renamed):
+			return fmt.Sprintf("SchemaOf(%s) without options has the column %q of a schema derived with a struct tag replacement: %s", t, renamed, plain)
+		case !hasField(plain, name):
+			return fmt.Sprintf("SchemaOf(%s) without options has no column %q: %s", t, name, plain)
+		}
+		return ""
+	}
+	return ""
+}
+
+// c15DoublePut reports an object that was handed back to a process-wide pool
+// while it was already in it (the H1 pool counts these and keeps one copy; the
+// shipped sync.Pool would hand the object to two owners).
+func c15DoublePut(sc *C15Scenario, which string) *core.Violation {
+	if _, _, _, dp, _ := parquet.VerifPoolStats(); dp > 0 {
+		return core.Violate("C15/pool-double-put/"+sc.Workload, "%d object(s) were put into a process-wide pool while already in it (%s execution): the next two takers would share one object", dp, which)
+	}
+	return nil
 }
